@@ -29,7 +29,7 @@ WITNESS = {
     "F-25": (ROUTE, F25, "nonadditive-no-appenders"),
     "F-25b": (ROUTE, F25B, "additive-no-appenders"),
 }
-RACE_FINDINGS = {"F-26": ("late-after-disconnect", RACE_WITNESS_26), "F-33": ("emitter-stuck-after-shutdown", RACE_WITNESS_33)}
+RACE_FINDINGS = {"F-26": ("late-after-disconnect", RACE_WITNESS_26), "F-33-logclose": ("emitter-stuck-after-shutdown", RACE_WITNESS_33)}
 
 
 def run_parallel(exe, lines, ways=4):
